@@ -492,6 +492,11 @@ def _stop_job(draw):
             labels.append("with-cap")
         if draw(st.booleans()):
             kw["shrinkage_expectation"] = draw(st.sampled_from(["t", "logt"]))
+        if draw(st.integers(0, 7)) == 0:
+            # the run finishes as soon as the initial live points have been
+            # drawn and consumed
+            kw["prior_sampling"] = True
+            labels.append("prior_sampling")
         return {"model": model, "ins": False, "kwargs": kw, "kills": [],
                 "labels": labels}
     model = draw(st.sampled_from([
